@@ -180,8 +180,9 @@ def _(tier, seed):
             for pos in range(count):
                 k = nxt[0]; nxt[0] += 1
                 ids[pos] = k
-                d = {"Title": ("T%d" % k).encode(), "Dest": [Ref(2), Name("Fit")]}
-                titles.append((level, "T%d" % k))
+                ttl = "T%d" % k if (count >= 10 or rng.random() < 0.8) else rng.choice(["", " ", "0"])      # an empty title is a title
+                d = {"Title": ttl.encode(), "Dest": [Ref(2), Name("Fit")]}
+                titles.append((level, ttl))
                 objs[k] = d
                 if level < 3 and count < 10 and rng.random() < 0.3:
                     sub = mk_pre(level + 1, rng.randint(1, 3))
